@@ -28,7 +28,7 @@ FLOORS = {
         "events": {"edit_distance": 1500, "prefix_edit_distances": 1500, "assert:value": 3000,
                    "assert:prefix-value": 3000, "assert:prefix-padding": 1000,
                    "assert:independence-solo": 1500, "assert:independence-garbage": 1000},
-        "classes": {c: 20 for c in G.CLASSES},
+        "classes": dict({c: 20 for c in G.CLASSES}, long_sequences=60),
         "distinct": 1000,
     },
     "thorough": {
@@ -51,6 +51,13 @@ def generate(rng, tier, i):
             case["R"], case["ref"] = 0, [[] for _ in case["ref"]]
         else:
             case["H"], case["hyp"] = 0, [[] for _ in case["hyp"]]
+        return case
+    if i % 29 == 28:
+        # sequences several times longer than anything else in the workload (block-wise / chunked code paths)
+        case = G.gen_string_case(rng, tier, G.CLASSES.index(rng.choice(["ragged", "garbage_after_eos", "unequal_costs"])),
+                                 max_len=rng.choice([33, 48, 70]))
+        case["class"] = "long_sequences"
+        case["ref"], case["hyp"] = case["ref"][:3], case["hyp"][:3]
         return case
     return G.gen_string_case(rng, tier, i)
 
